@@ -352,11 +352,29 @@ def batchCallScalarV (fixed : Bool) (c : β) (b : Nat) (d : D α) : Option (D β
   | some ps => merge ps
   | none => none
 
-/-- `LazyCall.__iter__` after the fix: `_split_extra` repeats an `extra` without arrays -/
+/-- `LazyCall._split_extra` (after the fix) while `k` batches of `x` are consumed:
+    `itertools.repeat(extra)` when `extra` holds no array (`len(data_shape(extra, all_list=True)) == 0`),
+    else `split_generator(extra, batch_size)` -/
+def splitExtraF (b k : Nat) (extra : D β) : List (D β) :=
+  if noArray extra then List.replicate k extra else splitF b extra
+
+/-- `for i, j in zip(xs, self._split_extra()): yield {**f(i), **j}` -- the loop shared by the second branch
+    (`xs` = batches yielded by an inner LazyCall) and the third branch (`xs = split_generator(x)`) -/
+def lazyIterOverF (f : D α → D β) (xs : List (D α)) (extra : D β) (b : Nat) : Option (List (D β)) :=
+  (List.zipWith (fun i j => updateD (f i) j) xs (splitExtraF b xs.length extra)).mapM id
+
+/-- `LazyCall.__iter__` after the fix, plain `x` -/
 def lazyIterF (f : D α → D β) (x : D α) (extra : D β) (b : Nat) : Option (List (D β)) :=
-  let xs := splitF b x
-  let es := if noArray extra then List.replicate xs.length extra else splitF b extra
-  (List.zipWith (fun i j => updateD (f i) j) xs es).mapM id
+  lazyIterOverF f (splitF b x) extra b
+
+/-- `LazyCall(g, LazyCall(f, x))`: `__iter__` of the outer object iterates the inner one -/
+def lazyIterNestedF {γ : Type} (g : D β → D γ) (f : D α → D β) (x : D α) (e1 : D β) (e2 : D γ) (b : Nat) :
+    Option (List (D γ)) :=
+  (lazyIterF f x e1 b).bind fun xs => lazyIterOverF g xs e2 b
+
+/-- `LazyCall(g, LazyCall(f, x)).eval()` -/
+def lazyEvalNested {γ : Type} (g : D β → D γ) (f : D α → D β) (x : D α) (e1 : D β) (e2 : D γ) : Option (D γ) :=
+  (lazyEval f x e1).bind fun v => lazyEval g v e2
 
 -- line protocol -----------------------------------------------------------------
 
@@ -457,6 +475,16 @@ def handle : List String → Option String
     match (if v == "1" then lazyIterF (testF fid) x e b else lazyIter (testF fid) x e b) with
     | some ps => some (showOpt true (merge ps))
     | none => some "none"
+  | "lazynest" :: gid :: fid :: b :: rest => do
+    let (x, rest) ← parseTree rest
+    let (e1, rest) ← parseTree rest
+    let (e2, _) ← parseTree rest
+    let gid ← gid.toNat?
+    let fid ← fid.toNat?
+    let b ← b.toNat?
+    match lazyIterNestedF (testF gid) (testF fid) x e1 e2 b with
+    | some ps => some (showOpt true (merge ps) ++ " | " ++ showOpt true (lazyEvalNested (testF gid) (testF fid) x e1 e2))
+    | none => some ("none | " ++ showOpt true (lazyEvalNested (testF gid) (testF fid) x e1 e2))
   | "lazyeval" :: fid :: rest => do
     let (x, rest) ← parseTree rest
     let (e, _) ← parseTree rest
